@@ -74,8 +74,8 @@ class ConstantExpressionEvaluator:
         value = self.eval_expr(expr.expr)
 
         # do some real casting:
-        if expr.typ.is_integer:
-            value = int(value)
+        if expr.typ.is_integer_or_enum:
+            value = self.context.wrap_integer(expr.typ, int(value))
         elif expr.typ.is_float or expr.typ.is_double:
             value = float(value)
         else:
@@ -91,7 +91,7 @@ class ConstantExpressionEvaluator:
                 "~": lambda x: ~x,
                 "!": lambda x: int(not x),
             }
-            value = op_map[expr.op](a)
+            value = self.fit(expr.typ, op_map[expr.op](a))
         elif expr.op == "&":
             value = self.eval_take_address(expr.a)
         else:  # pragma: no cover
@@ -107,6 +107,12 @@ class ConstantExpressionEvaluator:
             value = self.eval_expr(expr.b)
         else:
             value = self.eval_expr(expr.c)
+        return self.fit(expr.typ, value)
+
+    def fit(self, typ, value):
+        """Reduce the result of an integer operation to its type."""
+        if typ.is_integer_or_enum and isinstance(value, int):
+            value = self.context.wrap_integer(typ, value)
         return value
 
     def eval_binop(self, expr):
@@ -146,7 +152,7 @@ class ConstantExpressionEvaluator:
         else:
             op_map["/"] = lambda x, y: x / y
 
-        value = op_map[op](lhs, rhs)
+        value = self.fit(expr.typ, op_map[op](lhs, rhs))
         return value
 
 
